@@ -359,7 +359,7 @@ def main():
                      timeout=6 * 3600)
         if rc != 0 or not os.path.exists(outp):
             reports.append({"profile": prof, "crashed": True, "output": out[-3000:], "findings": [
-                {"class": "oracle", "what": f"harness process ended abnormally (exit {rc}): {out[-600:]}",
+                {"class": "oracle", "what": "harness process ended abnormally (exit %s): %s" % (rc, " | ".join(out.strip()[-600:].splitlines())),
                  "case": {"name": "harness-crash", "lines": []}}], "evaluations": 0, "distinct_nontrivial": 0})
             continue
         rep = json.load(open(outp))
